@@ -51,6 +51,15 @@ func registerC03(c *Ctx, r registrar, count *Counter) {
 	r.RegisterResource(&mcp.Resource{Name: "nil", URI: "res://nil"}, func(ctx context.Context, req *mcp.ReadResourceRequest) (mcp.ResourceContents, error) {
 		return nil, nil
 	})
+	r.RegisterResources(&mcp.Resource{Name: "multi-nil", URI: "res://multi-nil"}, func(ctx context.Context, req *mcp.ReadResourceRequest) ([]mcp.ResourceContents, error) {
+		return nil, nil
+	})
+	r.RegisterResources(&mcp.Resource{Name: "multi-empty", URI: "res://multi-empty"}, func(ctx context.Context, req *mcp.ReadResourceRequest) ([]mcp.ResourceContents, error) {
+		return []mcp.ResourceContents{}, nil
+	})
+	r.RegisterResources(&mcp.Resource{Name: "multi", URI: "res://multi"}, func(ctx context.Context, req *mcp.ReadResourceRequest) ([]mcp.ResourceContents, error) {
+		return []mcp.ResourceContents{mcp.TextResourceContents{URI: "res://multi#1", Text: "t"}, mcp.BlobResourceContents{URI: "res://multi#2", Blob: "aGk="}}, nil
+	})
 	r.RegisterResource(&mcp.Resource{Name: "blob", URI: "res://blob"}, func(ctx context.Context, req *mcp.ReadResourceRequest) (mcp.ResourceContents, error) {
 		return mcp.BlobResourceContents{URI: "res://blob", MIMEType: "application/octet-stream", Blob: "aGk="}, nil
 	})
@@ -73,6 +82,9 @@ func genOutcomes(nonce string) []genInput {
 		mk("resource handler error", "resources/read", map[string]interface{}{"uri": "res://fail"}, "handler-error:resource-handler-said-no"),
 		mk("resource handler nil,nil", "resources/read", map[string]interface{}{"uri": "res://nil"}, "handler-nil"),
 		mk("resource blob", "resources/read", map[string]interface{}{"uri": "res://blob"}, "valid"),
+		mk("multi-content resource handler nil,nil", "resources/read", map[string]interface{}{"uri": "res://multi-nil"}, "handler-nil"),
+		mk("multi-content resource handler: empty list", "resources/read", map[string]interface{}{"uri": "res://multi-empty"}, "valid"),
+		mk("multi-content resource: text and blob", "resources/read", map[string]interface{}{"uri": "res://multi"}, "valid"),
 		mk("templates list", "resources/templates/list", nil, "lenient"),
 	}
 }
